@@ -181,6 +181,52 @@ def r11_7(prog: Program, rep: Report, rule="R11.7"):
     rep.check(first and not last, rule, rm.qualname, rm.loc, "the module of a dotted reference string is the text before its first dot", "the module of a dotted reference string is cut at the last dot: 'mod.Outer.Inner' is looked for in a module 'mod.Outer'", detail="first-dot")
 
 
+def r11_8(prog: Program, rep: Report, rule="R11.8"):
+    """refs.evaluate: non-references come back unchanged, an evaluated reference yields its value, anything else is evaluated
+    in the caller-supplied namespaces. inspection.args evaluates references when asked to."""
+    ev = prog.function("typelib.py.refs.evaluate")
+    ref = ("param", ev.params[0])
+    ident = cached = evald = False
+    for p, r in P.returns(P.paths_of(prog, ev)):
+        gs = p.guards()
+        notref = any(pol and g[0] == "cmp" and g[1] in ("isnot", "!=") and T.is_call_to(g[2], "builtins.type") and g[2][2] == (ref,) and T.refname(g[3]) == "typing.ForwardRef" for g, pol in gs) or any((not pol) and T.is_call_to(g, "builtins.isinstance") and g[2][:1] == (ref,) for g, pol in gs)
+        if notref and r == ref:
+            ident = True
+        if r == ("attr", ref, "__forward_value__") and any(pol and g == ("attr", ref, "__forward_evaluated__") for g, pol in gs):
+            cached = True
+        if r[0] == "call" and r[1][0] == "attr" and r[1][2] == "_evaluate" and r[1][1] == ref and r[2][:2] == (("param", "globalns"), ("param", "localns")):
+            evald = True
+    rep.check(ident, rule, ev.qualname, ev.loc, "a non-reference is returned unchanged", "evaluate() does not return non-references unchanged", detail="identity")
+    rep.check(cached, rule, ev.qualname, ev.loc, "an evaluated reference yields its stored value", "evaluate() does not reuse __forward_value__ of an evaluated reference", detail="evaluated")
+    rep.check(evald, rule, ev.qualname, ev.loc, "otherwise the reference itself is evaluated in the supplied namespaces", "evaluate() does not evaluate the given reference with the caller's namespaces", detail="evaluate")
+    af = prog.function(f"{C.INSP}.args")
+    ann = ("param", af.params[0])
+    okargs = okeval = False
+    for p, r in P.returns(P.paths_of(prog, af)):
+        if T.contains(r, lambda s: T.is_call_to(s, "typing.get_args") and s[2] == (ann,)):
+            okargs = True
+        evpol = [pol for g, pol in p.guards() if g == ("param", "evaluate")]
+        if evpol == [True] and T.contains(r, lambda s: T.is_call_to(s, "typelib.py.refs.evaluate")):
+            okeval = True
+    rep.check(okargs, rule, af.qualname, af.loc, "args() reports typing.get_args of the annotation (declaration order)", "args() is not built on typing.get_args(annotation)", detail="get_args")
+    rep.check(okeval, rule, af.qualname, af.loc, "args(evaluate=True) evaluates forward-reference members", "args(evaluate=True) does not evaluate forward references among the members", detail="args-evaluate")
+    gh = prog.function(f"{C.INSP}.get_type_hints")
+    obj = ("param", gh.params[0])
+    uses = kwonly = fallback = False
+    for p in P.paths_of(prog, gh):
+        for tm in p.all_terms():
+            if T.contains(tm, lambda s: T.is_call_to(s, "typing.get_type_hints") and s[2][:1] == (obj,)):
+                uses = True
+            if T.contains(tm, lambda s: s[0] == "comp" and any(T.contains(c, lambda y: T.refname(y) in ("dataclasses.KW_ONLY", "typelib.py.compat.KW_ONLY")) for c in s[4])):
+                kwonly = True
+            if T.contains(tm, lambda s: T.is_call_to(s, f"{C.INSP}._hints_from_signature") and s[2] == (obj,)):
+                if any(g == ("param", "exhaustive") and pol for g, pol in p.guards()) or any(T.contains(g, lambda y: y == ("param", "exhaustive")) and pol for g, pol in p.guards()):
+                    fallback = True
+    rep.check(uses, rule, gh.qualname, gh.loc, "hints come from typing.get_type_hints(obj) (aliases and string annotations resolved)", "get_type_hints is not built on typing.get_type_hints(obj)", detail="hints-source")
+    rep.check(kwonly, rule, gh.qualname, gh.loc, "the dataclass KW_ONLY sentinel is filtered out", "the KW_ONLY sentinel is not filtered: a pseudo-field reaches the graph", detail="kw-only")
+    rep.check(fallback, rule, gh.qualname, gh.loc, "signature hints are used only when asked for (exhaustive) and nothing else was found", "the signature fallback is not tied to `exhaustive`", detail="exhaustive")
+
+
 def r11_6(prog: Program, rep: Report):
     f, ps = c09.graph_paths(prog)
     ok_root = ok_child = False
@@ -204,6 +250,7 @@ def run(prog: Program, rep: Report, tier: str):
     rep.rule("R11.3", "context double keying (shared with R05.1)", floor=4)
     rep.rule("R11.4", "context fallback through unwrap / forward reference (C16 rules)", floor=5)
     rep.rule("R11.5", "memoised reference resolvers are pure", floor=2)
+    rep.rule("R11.8", "refs.evaluate / inspection.args / get_type_hints contracts", floor=8)
     rep.rule("R11.7", "refs.forwardref names a type by its own qualified name and module; defaults and dotted-string rule", floor=5)
     rep.rule("R11.6", "graph nodes carry (annotation, unwrapped); reference roots evaluated (shared with R09.4)", floor=4)
     r11_1(prog, rep)
@@ -221,6 +268,7 @@ def run(prog: Program, rep: Report, tier: str):
     absorb(rep, sub, {"R16.1": "R11.4", "R16.2": "R11.4", "R16.4": "R11.4", "R16.3": "R11.4"})
     r11_5(prog, rep)
     r11_7(prog, rep)
+    r11_8(prog, rep)
     r11_6(prog, rep)
     sub = Report("C11", tier)
     sub.rule("R09.4", "", 0)
